@@ -12,6 +12,7 @@ Core Lean only.
 import MdVerif.Lemmas.C02FnTocZ
 import MdVerif.Lemmas.C02FnTocAll
 import MdVerif.Lemmas.C02FnHAttr
+import MdVerif.Lemmas.C02FnHAbbr
 
 namespace MdVerif.C02TocZ
 open Py Pipeline PipelineX NoCtl C02BigSh C02BigNB C02BigX C02Fn C02Toc C02Names C02Z
@@ -29,28 +30,55 @@ theorem forallL_and {P Q : Node → Prop} : (l : List Node) → Node.ForallL P l
     exact ⟨forall_and c h1.1 h2.1, forallL_and r h1.2 h2.2⟩
 end
 
-/-- prettify, then attr_list (abbr off): the STX-token invariant and the clean names are kept — `AttrListTreeprocessor`
+/-- no abbreviation of the table starts with a character that may follow an STX (a digit, `k`, `w`, `q`, `z`) -/
+def AbbrHeads (abbrs : List (Str × Str)) : Prop :=
+  ∀ kv ∈ abbrs, ∀ c, kv.1.head? = some c → TokH.cutOk c = true
+
+instance (abbrs : List (Str × Str)) : Decidable (AbbrHeads abbrs) := by unfold AbbrHeads; infer_instance
+
+/-- prettify, then attr_list, then abbr: the STX-token invariant and the clean names are kept — `AttrListTreeprocessor`
     cuts texts in front of blanks, line feeds and braces, its values are complete pieces, its names sanitised; a class
-    is appended behind a blank to a `class` value that is a literal of the block parser or of a pattern -/
-theorem late3_H {x : Exts} (hab : x.abbr = false) (cfg : Cfg) (log : Block.Refs) {t : Node}
+    is appended behind a blank to a `class` value that is a literal of the block parser or of a pattern;
+    `AbbrTreeprocessor` cuts in front of the first character of an abbreviation, which by `AbbrHeads` continues no STX -/
+theorem late3_H {x : Exts} (cfg : Cfg) {log : Block.Refs} (hlog : LogOk log)
+    (hab : x.abbr = true → AbbrHeads (BlockExt.abbrsOf log)) {t : Node}
     (hS : t.Forall TokH.NodeS) (hN : t.Forall NamesC) : (late3 x cfg log t).Forall NodeH := by
   have hp := TokH.prettify_S hS cfg.blockLevel
   have hn : (TreeProc.prettify t cfg.blockLevel).Forall NamesC :=
     forall_of_NI _ (FnDocNI.prettify_NI _ cfg.blockLevel (NI_of_forall _ hN))
-  have e : late3 x cfg log t = (if x.attrList then AttrListTree.run cfg.blockLevel (TreeProc.prettify t cfg.blockLevel)
-      else TreeProc.prettify t cfg.blockLevel) := by simp [late3, hab]
-  rw [e]
+  have h2 : (if x.attrList then AttrListTree.run cfg.blockLevel (TreeProc.prettify t cfg.blockLevel)
+      else TreeProc.prettify t cfg.blockLevel).Forall NodeH := by
+    split
+    · have hsc : (TreeProc.prettify t cfg.blockLevel).Forall C02FnHAttr.NodeSC :=
+        Node.Forall.mono (fun n hn => ⟨hn.1, fun kv hkv hk => TokH.SOk_of_noSTX (hn.2.2 kv hkv hk)⟩) _
+          (forall_and _ hp hn)
+      exact forallH_of _ (C02FnHAttr.attrRun_S_of_SC cfg.blockLevel hsc)
+        (C02FnHAttr.attrRun_names cfg.blockLevel (Node.Forall.mono (fun _ h => h.1) _ hn))
+    · exact forallH_of _ hp (Node.Forall.mono (fun _ h => h.1) _ hn)
+  unfold late3
+  simp only
   split
-  · have hsc : (TreeProc.prettify t cfg.blockLevel).Forall C02FnHAttr.NodeSC :=
-      Node.Forall.mono (fun n hn => ⟨hn.1, fun kv hkv hk => TokH.SOk_of_noSTX (hn.2.2 kv hkv hk)⟩) _
-        (forall_and _ hp hn)
-    exact forallH_of _ (C02FnHAttr.attrRun_S_of_SC cfg.blockLevel hsc)
-      (C02FnHAttr.attrRun_names cfg.blockLevel (Node.Forall.mono (fun _ h => h.1) _ hn))
-  · exact forallH_of _ hp (Node.Forall.mono (fun _ h => h.1) _ hn)
+  · next habbr =>
+    have hd := BlkX.abbrsOf_c hlog
+    have hS2 : ∀ {u : Node}, u.Forall NodeH → u.Forall TokH.NodeS := fun h => Node.Forall.mono (fun _ h => h.1) _ h
+    have hN2 : ∀ {u : Node}, u.Forall NodeH → u.Forall NamesOk := fun h => Node.Forall.mono (fun _ h => h.2) _ h
+    exact forallH_of _
+      (C02FnHAbbr.abbrRun_S _ (hab habbr) (fun kv hkv => (allC_okc (hd kv hkv).1).1)
+        (fun kv hkv => TokH.SOkA_of_noSTX (allC_okc (hd kv hkv).2).1) (hS2 h2))
+      (C02FnHAbbr.abbrRun_names _ (hN2 h2))
+  · exact h2
 
-/-- **no tree processor raises with toc** (abbr off; STX not escapable), every source -/
-theorem treeXBig_ne_err_tocZ {x : Exts} (htoc : x.toc = true) (hab : x.abbr = false)
+/-- the abbreviation table of the document (the log of the block stage) -/
+def abbrTable (x : Exts) (cfg : Cfg) (src : Str) : List (Str × Str) :=
+  match blockStageX x cfg src with
+  | .ok (_, log, _) => BlockExt.abbrsOf log
+  | _ => []
+
+/-- **no tree processor raises with toc** (STX not escapable; with abbr: no abbreviation starts with a digit or
+    `k`, `w`, `q`, `z`), every source -/
+theorem treeXBig_ne_err_tocZ {x : Exts} (htoc : x.toc = true)
     (cfg : Cfg) (hesc : cfg.esc.contains Inline.STX = false) (src : Str)
+    (hab : x.abbr = true → AbbrHeads (abbrTable x cfg src))
     (htab : x.fencedCode = true → 0 < cfg.tab) : treeXBig x cfg src ≠ .err := by
   unfold treeXBig
   cases hb : blockStageX x cfg src with
@@ -73,8 +101,13 @@ theorem treeXBig_ne_err_tocZ {x : Exts} (htoc : x.toc = true) (hab : x.abbr = fa
       | none => exact absurd hd (dupOk x cfg src root log stash t xs hb hr)
       | some t1 =>
         simp only
+        have hab' : x.abbr = true → AbbrHeads (BlockExt.abbrsOf log) := by
+          intro h
+          have := hab h
+          simp only [abbrTable, hb] at this
+          exact this
         have h1 : (late3 x cfg log t1).Forall NodeH :=
-          late3_H hab cfg log (C02FnH.dupStage_S hS hd) (names_dup hN0 hr hd)
+          late3_H cfg hlog hab' (C02FnH.dupStage_S hS hd) (names_dup hN0 hr hd)
         have hhtml := html_noSTX hb hr
         rcases run_Z (env := { fmt := cfg.fmt, post := postX x cfg xs.st.html })
             (fun s o ho h3 => Z3_postX x cfg ho hhtml h3) cfg.blockLevel _ h1 with h | h | ⟨t6, h, h6⟩
@@ -87,9 +120,11 @@ theorem treeXBig_ne_err_tocZ {x : Exts} (htoc : x.toc = true) (hab : x.abbr = fa
           | none => exact absurd hun hu
           | some u => intro e; cases e
 
-/-- when is the toc stage covered: without abbr whenever STX is not escapable; otherwise under `tocClean` -/
+/-- when is the toc stage covered: STX not escapable and (with abbr) no abbreviation starting with a digit or
+    `k`, `w`, `q`, `z` — or `tocClean` -/
 def TocHyp (x : Exts) (cfg : Cfg) (src : Str) : Prop :=
-  (x.abbr = false ∧ cfg.esc.contains Inline.STX = false) ∨ tocClean x cfg src = true
+  (cfg.esc.contains Inline.STX = false ∧ (x.abbr = true → AbbrHeads (abbrTable x cfg src))) ∨
+    tocClean x cfg src = true
 
 instance (x : Exts) (cfg : Cfg) (src : Str) : Decidable (TocHyp x cfg src) := by unfold TocHyp; infer_instance
 
@@ -101,8 +136,8 @@ theorem convertXBig_ne_err_full {x : Exts} (cfg : Cfg) (src : Str) (htab : x.fen
   · cases htoc : x.toc with
     | false => exact treeXBig_ne_err_fn htoc cfg src htab (dupOk x cfg src) ht
     | true =>
-      rcases hcl htoc with ⟨hab, hesc⟩ | hc
-      · exact treeXBig_ne_err_tocZ htoc hab cfg hesc src htab ht
+      rcases hcl htoc with ⟨hesc, hab⟩ | hc
+      · exact treeXBig_ne_err_tocZ htoc cfg hesc src hab htab ht
       · exact treeXBig_ne_err_toc htoc cfg src htab hc ht
   · rw [C14X.topLevelStrip_div _ u (treeXBig_rootDiv_all ht)] at hs
     cases hs
